@@ -292,6 +292,143 @@ def path_ser(ctx, arg):
         ctx.tag('injective')
 
 
+def _build_zerv(ctx, order, tag, spec):
+    """a Zerv object over `spec` with every ZervVars field symbolic (presence and contents), built through zerv's own
+    constructors in MIR; returns (object, SymVars, (last_tag_version presence, char))"""
+    I, w = ctx.I, ctx.w
+    vi = I.prog.variant_index
+
+    def comp(i, c):
+        if c[0] == 'uint':
+            return Adt('Component', vi('Component', 'UInt'), [w.fresh_int('%s_u%d' % (tag, i), 0, 2**64 - 1)])
+        if c[0] == 'custom':
+            return Adt('Component', vi('Component', 'Var'), [Adt('Var', vi('Var', 'Custom'), [mkstring(c[1])])])
+        if c[0] == 'str' and len(c[1]) > 1:
+            return c06.comp_value(I, ('str', [ord(x) for x in c[1]]))
+        if c[0] == 'str':
+            ch = w.fresh_int('%s_s%d' % (tag, i))
+            w.assume(C.domain(ch))
+            return Adt('Component', vi('Component', 'Str'), [StringObj([ch])])
+        return c06.comp_value(I, c)
+    parts = [VecObj([comp(10 * k + i, c) for i, c in enumerate(part)]) for k, part in enumerate(spec)]
+    po = I.call('PrecedenceOrder::from_precedences', [VecObj([Adt('Precedence', vi('Precedence', p), []) for p in order])])
+    r = I.call('ZervSchema::new_with_precedence', parts + [po])
+    if r.variant != 0:
+        raise Unsupported('menu schema rejected')
+    used = set(c06.NUMVARS) | {'pre_release', 'dirty', 'bumped_timestamp', 'last_timestamp'} | set(c06.TEXTVARS)
+    sv = c06.SymVars(w, I, used, dict(num_max=2**64 - 1, text_len=2))
+    vars_ = sv.value(I)
+    lp, lc = w.fresh_int(tag + '_has_ltv', 0, 1), w.fresh_int(tag + '_ltv')
+    w.assume(C.domain(lc))
+    vars_.fields[c06.FIELDS.index('last_tag_version')] = Adt('Option', lp, [StringObj([lc])])
+    return Adt('Zerv', 0, [r.fields[0], vars_]), sv, (lp, lc)
+
+
+def path_de(ctx, arg):
+    """emit -> parse at the serde data-model level: zerv's Serialize impls record the tree of a Zerv object with
+    symbolic contents, zerv's Deserialize impls (derived visitors, field matchers, defaults, hand-written impls; all from
+    MIR) rebuild an object from that tree through a replaying deserializer; z3 is asked for contents where the rebuilt
+    object is not identical to the original or does not re-emit the same tree"""
+    import models_serde as MSD
+    I, w = ctx.I, ctx.w
+    name, order = arg['order']
+    built = _build_zerv(ctx, order, 'A', arg['schema'])
+    A, sv, (lp, lc) = built
+
+    def conc(m):
+        d = sv.concrete(m)
+        d['last_tag_version'] = [m.eval(lc, model_completion=True).as_long()] if m.eval(lp, model_completion=True).as_long() else None
+        return d
+    try:
+        ta = MSD.ser_value(I, A)
+        r = MSD.de_value(I, 'Zerv', ta)
+    except Panic as e:
+        ctx.violation(clause='panic', what='roundtrip', detail=str(e), vkey='panic|de')
+        return
+    ctx.tag('emitted')
+    if r.variant != 0:
+        m = w.get_model()
+        ctx.violation(clause='roundtrip_de', what='rejected', orders=[name, name], order_a=order, vars=conc(m), schema_spec=repr(arg['schema']),
+                      detail='the document zerv emits for this object is refused by its own Deserialize impls: %r' % (peel(r.fields[0]).state,), vkey='de|rejected')
+        return
+    ctx.tag('parsed_back')
+    B = peel(r.fields[0])
+    same = val_eq(A, B)
+    m = None
+    if same is False:
+        m = w.get_model()
+    elif same is not True:
+        m = w.find(z3.Not(MSD._b(same)))
+    if m is not None:
+        diff = _first_diff(A, B, m)
+        ctx.violation(clause='roundtrip_de', what='object_changed', orders=[name, name], order_a=order, vars=conc(m), schema_spec=repr(arg['schema']), differs_at=diff,
+                      detail='emit -> parse changes the object at %s (precedence order %s)' % (diff, name), vkey='de|changed|' + diff.split('[')[0])
+        return
+    try:
+        tb = MSD.ser_value(I, B)
+    except Panic as e:
+        ctx.violation(clause='panic', what='re-emit', detail=str(e), vkey='panic|de')
+        return
+    same_doc = MSD.tree_eq(ta, tb)
+    if same_doc is False or (same_doc is not True and w.find(z3.Not(MSD._b(same_doc))) is not None):
+        ctx.violation(clause='roundtrip_de', what='reemit_differs', orders=[name, name], order_a=order, vars=conc(w.get_model()), schema_spec=repr(arg['schema']),
+                      detail='emit -> parse -> emit gives a different document', vkey='de|reemit')
+        return
+    ctx.tag('identical')
+
+
+def _first_diff(a, b, m, path='zerv'):
+    """where two interpreter values differ under a model (for the report and the class key)"""
+    a, b = peel(a), peel(b)
+    ev = lambda x: m.eval(x, model_completion=True).as_long() if z3.is_expr(x) and not z3.is_bool(x) else (bool(m.eval(x, model_completion=True)) if z3.is_expr(x) else x)
+    if isinstance(a, (StringObj, Str)) and isinstance(b, (StringObj, Str)):
+        return '' if [ev(x) for x in a.chars] == [ev(x) for x in b.chars] else path
+    if isinstance(a, VecObj) and isinstance(b, VecObj):
+        if len(a.items) != len(b.items):
+            return path + '.len'
+        for i, (x, y) in enumerate(zip(a.items, b.items)):
+            d = _first_diff(x, y, m, '%s[%d]' % (path, i))
+            if d:
+                return d
+        return ''
+    if isinstance(a, MapObj) and isinstance(b, MapObj):
+        if len(a.entries) != len(b.entries):
+            return path + '.len'
+        for i, (x, y) in enumerate(zip(a.entries, b.entries)):
+            d = _first_diff(x[0], y[0], m, '%s.key%d' % (path, i)) or _first_diff(x[1], y[1], m, '%s.val%d' % (path, i))
+            if d:
+                return d
+        return ''
+    if isinstance(a, Adt) and isinstance(b, Adt):
+        if a.name != b.name or ev(a.variant) != ev(b.variant):
+            return path + ':' + a.name
+        if a.name == 'Option' and ev(a.variant) == 0:
+            return ''
+        names = None
+        for i, (x, y) in enumerate(zip(a.fields, b.fields)):
+            fn = c06.FIELDS[i] if a.name == 'ZervVars' and i < len(c06.FIELDS) else str(i)
+            d = _first_diff(x, y, m, '%s.%s' % (path, fn))
+            if d:
+                return d
+        return '' if len(a.fields) == len(b.fields) else path + ':' + a.name
+    if type(a) is not type(b) and not (z3.is_expr(a) or z3.is_expr(b) or isinstance(a, (int, bool)) and isinstance(b, (int, bool))):
+        return path + ':type'
+    return '' if ev(a) == ev(b) else path
+
+
+def de_args(tier):
+    orders = prec_orders(tier)
+    spec = ser_args(tier)[0]['schema']
+    out = [dict(order=o, schema=spec) for o in orders]
+    kinds = [('var', 'Distance'), ('var', 'Dirty'), ('ts', 'YYYY'), ('custom', 'YYYY'), ('str', 'YYYY'), ('uint', 0), ('var', 'BumpedCommitHashShort'), ('var', 'LastCommitHashShort'),
+             ('var', 'BumpedCommitHash'), ('var', 'LastBranch'), ('var', 'LastTimestamp'), ('var', 'BumpedTimestamp'), ('ts', 'compact_datetime')]
+    for k in kinds:
+        out.append(dict(order=orders[0], schema=(spec[0], spec[1], [('var', 'BumpedBranch'), k])))
+    out.append(dict(order=orders[0], schema=([], [], [('var', 'Distance')])))
+    out.append(dict(order=orders[0], schema=([('var', 'Major')], [], [])))
+    return out
+
+
 def ser_args(tier):
     orders = prec_orders(tier)
     spec = ([('var', 'Major'), ('var', 'Minor'), ('var', 'Patch')], [('var', 'Epoch'), ('var', 'PreRelease'), ('var', 'Post'), ('var', 'Dev'), ('str', 'x')],
